@@ -34,7 +34,9 @@ use vh_common::{Case, Rng, Run, trap};
 pub const BIG: usize = 256 << 20;
 pub const GROWTH: usize = 512 << 20;
 /// A single request >= this is refused by the allocator (the machine never pays for a 4 GiB vec![0; n]).
-pub const REFUSE: usize = 1 << 30;
+/// Equal to the violation threshold: a request that is already a violation gains nothing from being served, and
+/// zero-filling hundreds of MiB per mutant would dominate the run time.
+pub const REFUSE: usize = BIG;
 pub const MAX_INPUT: usize = 4 << 20;
 /// M4: soft per-call budget (recorded as a note, not a violation) and hard budget before kill+confirm.
 /// Inputs are <= 4 MiB and an ordinary call takes well under 10 ms; the library's own limits (100 MiB per decompressed
